@@ -123,6 +123,7 @@ def c_rename_variables(h):
                 h.ensure("C16.rename_variables.mapping_%d_source_and_target" % i, z3.And(e[2].attrs["_name"] == a, e[3].attrs["_name"] == b))
                 cur = e[4]
         h.check("C16.rename_variables.returns_last_result", out.value is cur, "returned %r" % (out.value,))
+    h.check("C13.rename_variables.result_is_not_the_operand", out.value is not c, "the operand itself is returned")
     h.check("C13.mapping_list_unchanged", len(pl.items) == n, "mapping list modified")
     h.frame_ok(out, "C13.frame")
 
